@@ -1056,6 +1056,45 @@ theorem dbInv_run {compound : Bool} {d : Db} (h : DbInv compound d) (ops : List 
   | cons op ops ih =>
     exact ih (dbInv_step h op (hops op (List.mem_cons_self))) (fun o ho => hops o (List.mem_cons_of_mem _ ho))
 
+theorem cmpS_self (compound : Bool) (a : Bytes) : cmpS compound a a = 0 := by
+  cases compound with
+  | false => rw [cmpS, Cmp.cmpK_false]; exact Cmp.tieBreak_self _
+  | true => exact (Cmp.cmpK_true_eq_zero _ _).2 rfl
+
+/-- `_sblk_find_pi_mm` reports "found" exactly when the stored form of the lookup key is one of the node's keys, and then at its position -/
+theorem findPi_found_iff {compound : Bool} {n : Node} (h : NodeInv compound n) (k : Bytes) (c : Nat) (hk : k ≠ []) (hc : c < 2 ^ 63) :
+    ((findPi n (cmpOf compound k c)).1 = true ↔ Cmp.stored compound k c ∈ keys n) ∧
+    ((findPi n (cmpOf compound k c)).1 = true → keyAt n (findPi n (cmpOf compound k c)).2 = Cmp.stored compound k c) := by
+  obtain ⟨hf, hcmp⟩ := found_findPi h k c
+  have hwf := wfs_stored compound k c hk hc
+  have hkm : ∀ i, i < n.pnum → keyAt n i ∈ keys n := fun i hi => by
+    have hi' : i < n.pi.length := by rw [← h.pnum]; exact hi
+    rw [keyAt_eq_getElem n i hi']; exact List.getElem_mem _
+  have hit : (findPi n (cmpOf compound k c)).1 = true → keyAt n (findPi n (cmpOf compound k c)).2 = Cmp.stored compound k c := by
+    intro ht
+    obtain ⟨hlt, h0⟩ := hf.hit ht
+    have hm := hkm _ hlt
+    have h0' : cmpOf compound k c (keyAt n (findPi n (cmpOf compound k c)).2) = 0 := h0
+    rw [hcmp _ hm] at h0'
+    exact cmpS_eq_zero_wf compound _ _ (h.wf _ hm) hwf h0'
+  refine ⟨⟨fun ht => ?_, fun hm => ?_⟩, hit⟩
+  · rw [← hit ht]; exact hkm _ (hf.hit ht).1
+  · cases hq : (findPi n (cmpOf compound k c)).1 with
+    | true => rfl
+    | false =>
+      exfalso
+      obtain ⟨j, hj, ej⟩ := List.getElem_of_mem hm
+      have hj' : j < n.pi.length := by simpa [keys] using hj
+      have hjp : j < n.pnum := by rw [h.pnum]; exact hj'
+      have e0 : cmpOf compound k c (keyAt n j) = 0 := by
+        rw [hcmp _ (hkm j hjp), keyAt_eq_getElem n j hj', ej]; exact cmpS_self _ _
+      by_cases hlt : j < (findPi n (cmpOf compound k c)).2
+      · have := hf.left j hlt
+        have : cmpOf compound k c (keyAt n j) < 0 := this
+        omega
+      · have := hf.miss hq j (by omega) hjp
+        have : cmpOf compound k c (keyAt n j) > 0 := this
+        omega
 theorem dbInv_none (compound : Bool) : DbInv compound none := fun _ h => absurd h (by simp)
 
 end IwModel.KvNode
